@@ -21,7 +21,7 @@ DEV_REAPER = "kill-races-with-reaper-start"
 
 KINDS = ["basic", "hook", "ctl"]
 BEHS = ["sleep", "ignore", "fork", "exit0", "exit3", "crash", "noready", "stuck", "done0", "done3", "donesig", "nodone", "fmq",
-        "midstate"]
+        "midstate", "resetstuck"]
 REQS = ["CONFIGURE", "START", "STOP", "Trigger", "Kill"]
 INSTS = ["launching", "nochild", "starting", "polling", "running", "exiting", "reaped"]
 NTHS = [1, 2, 3]   # first / repeated back to back / repeated after a terminal status had been reported
@@ -114,8 +114,10 @@ def scn_from_gen(sid, rec):
     bad = sorted(tuple(b) for b in rec["bad"]["$set"])
     cls = "%s/%s/%s%s" % (rec["kind"], rec["beh"], "+".join("%s@%s%s" % (r, w, "" if a == "calm" else ":" + a)
                                                            for (r, w, a) in plan) or "-",
-                          ("/deep" if rec["deep"] else "") + ("/hold" if rec["hold"] and rec["kind"] != "ctl" else ""))
-    return {"id": sid, "kind": rec["kind"], "beh": rec["beh"], "hold": bool(rec["hold"]), "steps": steps, "cls": cls,
+                          ("/deep" if rec["deep"] else "") + ("/hold" if rec["hold"] and rec["kind"] != "ctl" else "")
+                          + ("/user" if rec.get("usr") else ""))
+    return {"id": sid, "kind": rec["kind"], "beh": rec["beh"], "hold": bool(rec["hold"]), "user": bool(rec.get("usr")),
+            "steps": steps, "cls": cls,
             "plan": plan, "predicted": [list(b) for b in bad], "origin": "generated"}
 
 
@@ -194,7 +196,7 @@ def _run(ctx, replay_scn):
     b4 = ["sleep", "fork", "exit3", "crash"]
     if quick:
         runs = [("basic", 3, b4, ["START", "STOP", "Kill"]), ("hook", 3, b4, None),
-                ("ctl", 2, ["fork", "noready", "stuck", "done3", "nodone", "midstate"], None)]
+                ("ctl", 2, ["fork", "noready", "stuck", "done3", "nodone", "midstate", "resetstuck"], None)]
     else:
         # (controllable tasks: the Kill goroutine has seven steps; three overlapping requests are beyond 20M states,
         #  so their exhaustive bound stays at two requests at any instant - the replayed plans add the
@@ -239,6 +241,10 @@ def _run(ctx, replay_scn):
     for rec in recs:
         sid += 1
         allscn.append(scn_from_gen(sid, rec[1]))
+    if os.geteuid() != 0:
+        # a configured user needs an executor that may change credentials
+        allscn = [s for s in allscn if not s.get("user")]
+        ctx.assumptions.append("not running as root: the plans for tasks with a configured user were left out")
     rng = random.Random(ctx.seed)
     if replay_only:
         chosen = [replay_only]
@@ -269,7 +275,8 @@ def _run(ctx, replay_scn):
     binp = ctx.build("exectask")
     scn_file = ctx.path("scenarios.ndjson")
     trace_file = ctx.path("trace.ndjson")
-    ctx.write_ndjson(scn_file, [{k: s[k] for k in ("id", "kind", "beh", "hold", "steps", "cls")} for s in scenarios])
+    ctx.write_ndjson(scn_file, [dict({k: s[k] for k in ("id", "kind", "beh", "hold", "steps", "cls")}, user=bool(s.get("user")))
+                                for s in scenarios])
     par = 12 if vlib.NCPU >= 12 else max(4, vlib.NCPU)
     out = ctx.run([binp, "-scenarios", scn_file, "-trace", trace_file, "-work", ctx.path("scn"), "-par", str(par)],
                   timeout=2400)
@@ -312,7 +319,7 @@ def _run(ctx, replay_scn):
             continue
         seen.add(key)
         sig.update({"scn": scn, "line": line, "cls": s.get("cls"), "origin": s.get("origin")})
-        ctx.add_violation(sig, replay_obj={"scenario": {k: s.get(k) for k in ("id", "kind", "beh", "hold", "steps", "cls")},
+        ctx.add_violation(sig, replay_obj={"scenario": {k: s.get(k) for k in ("id", "kind", "beh", "hold", "user", "steps", "cls")},
                                            "trace": trace_of(scn)})
     # a violation predicted by the exhaustive model outside the known classes must reproduce on the real code
     for (scn, inv) in predicted_new:
